@@ -400,6 +400,22 @@ def rule_srand_repeat(ctx, R):
                 if capped:
                     R.finding(fn, "repeat-picks:capped-at-cardinality",
                               "%s draws its with-repetition picks in a loop (line %d) whose iteration count is derived from the collection's length: a negative count larger than the cardinality answers fewer elements than asked for" % (fn.split("::")[-1], b.bb_line(x)), b.loc(x))
+        # adaptor form: `(0..n).filter_map(|_| members.choose(..))` -- the draw sits in a closure an
+        # iterator adaptor drives over a range built in this function
+        for i, t in b.calls():
+            if not t.get("clos") or not re.search(r"Iterator>::(map|filter_map|flat_map|for_each|fold|take_while)(::<.*>)?$", t["f"] or "") or not t["a"] or op_is_const(t["a"][0]):
+                continue
+            if not any(re.search(r"(SliceRandom|IteratorRandom|IndexedRandom)>::choose(::<.*>)?$", tt["f"] or "") for c in t["clos"] if c in ctx.prog.bodies for _, _, tt in shared.deep_calls(ctx, ctx.prog.bodies[c])):
+                continue
+            ends = taint.range_ends(b, t["a"][0])
+            if not ends or op_is_const(ends[1]):
+                continue
+            n += 1
+            capped = prov.operand_origins(b, ends[1], deep=True).has_call(r"::len$")
+            R.inst(fn, "repeat-picks@%d" % b.bb_line(i), {"function": fn, "at": b.loc(i), "iterations_depend_on_the_cardinality": capped, "form": "adaptor over a range"})
+            if capped:
+                R.finding(fn, "repeat-picks:capped-at-cardinality",
+                          "%s draws its with-repetition picks over a range (line %d) whose end is derived from the collection's length: a negative count larger than the cardinality answers fewer elements than asked for" % (fn.split("::")[-1], b.bb_line(i)), b.loc(i))
     R.floor("repeat_pick_loops", n)
 
 
